@@ -126,6 +126,13 @@ theorem arith_ok_le [LawfulCmp F] (crit : Crit W) (l : W) (a : Arith F) (lo hi :
   rw [hg] at this
   simpa using this.symm
 
+/-- the hypotheses of `arith_ok_is_sane` / `arith_ok_le` are satisfiable (exact reals, sample `1, 2`) -/
+example : ∃ lo hi : Rex,
+    Arith.ciMean (constCrit 2 : Crit Rex) Examples.a12 (.twoSided (inj 0.95)) = .ok (.twoSided lo hi) ∧
+    isFinite lo = true ∧ isFinite hi = true := by
+  obtain ⟨lo, hi, h, _⟩ := Examples.arith_ok
+  exact ⟨lo, hi, h, rfl, rfl⟩
+
 /-! ### c. comparisons -/
 
 /-- `Paired::ci`: unequal lengths are `DifferentSampleSizes(len_a, len_b)`; equal lengths are the
@@ -210,6 +217,14 @@ theorem unpaired_ok_is_sane (crit : Crit W) (conf : Confidence W) (u : Unpaired 
     ∃ lo hi : F, (conf.kind = .twoSided → i = .twoSided lo hi ∧ gt lo hi = false) ∧
       (conf.kind = .upper → i = .upper lo) ∧ (conf.kind = .lower → i = .lower hi) :=
   Unpaired.ciMean_eq_ok h
+
+/-- the hypotheses of `unpaired_ok_is_sane` and `unpaired_total_Rex` are satisfiable -/
+example : (∃ lo hi : Rex,
+    Unpaired.ciMean (constCrit 2 : Crit Rex) ⟨Examples.a12, Examples.a12⟩ (.twoSided (inj 0.95)) =
+      .ok (.twoSided lo hi)) ∧
+    ((Unpaired.s2n Examples.a12).val ≠ 0 ∨ (Unpaired.s2n Examples.a12).val ≠ 0) := by
+  obtain ⟨lo, hi, h, _⟩ := Examples.unpaired_ok
+  exact ⟨⟨lo, hi, h⟩, Or.inl (by rw [Examples.s2n_a12]; norm_num)⟩
 
 /-! ### c. geometric and harmonic means -/
 
@@ -575,5 +590,9 @@ theorem sorted_unchecked_passes_nan (crit : Crit XR) (conf : Confidence XR) (q :
     Outcome.bind_ok]
   rw [Quantile.nth_of_lt _ hlo, Quantile.nth_of_lt _ hhi]
   simp [Interval.new, liftI]
+
+/-- the hypothesis is satisfiable: ten observations, the median -/
+example : Quantile.ciIndices (fun _ => XR.fin 0) (.twoSided (XR.fin 0.95)) 10 (XR.fin 0.5) =
+    .ok (.twoSided 5 5) := Examples.ciIndices_ok
 
 end StatsCI.C11
